@@ -3,7 +3,7 @@ import N0Verif.Proofs.XPathSpellings
 /-!
   The descendant search `//*/name` (completeness, both inclusions, document order) and the
   invariant "the found-path list renders the position of the current node" through every branch of
-  `_findall` that is not a `text()` condition.
+  `_findall`.
 
   All names carry the prefix `fad` (namespace `N0.FindAll` is shared with `Proofs/FindAll.lean`).
 -/
@@ -1089,6 +1089,15 @@ theorem FadInv.key {root : Val} {gs : List Grp} {c : Cls} {kvs : List (Str × Va
       rw [push, lookup_kvSet_other _ _ _ _ (by rw [h.fl_eq]; exact hne)] at hlk
       exact h.stack m hm' nd hlk
 
+/-- registering the current node under its own xpath (what a `text()` condition does) -/
+theorem FadInv.register {root : Val} {gs : List Grp} {node : Val} {fl : FL} {ps : PS}
+    (h : FadInv root gs node fl ps) : FadInv root gs node fl (push ps fl node) := by
+  refine ⟨h.plain, h.fl_eq, h.at_, ?_⟩
+  intro m hm nd hlk
+  have hne := fad_take_prefix_ne h.plain hm
+  rw [push, lookup_kvSet_other _ _ _ _ (by rw [h.fl_eq]; exact hne)] at hlk
+  exact h.stack m hm nd hlk
+
 theorem FadInv.gs_ne_of_list {root : Val} {gs : List Grp} {c : Cls} {xs : List Val} {fl : FL} {ps : PS}
     (h : FadInv root gs (.list c xs) fl ps) (hroot : ∃ c kvs, root = .dict c kvs) : gs ≠ [] := by
   intro hgs
@@ -1143,10 +1152,7 @@ theorem FadInv.up {root : Val} {gs : List Grp} {node : Val} {fl : FL} {ps : PS}
     have := h.stack m (by simp; omega) nd (by rw [htk]; exact hlk)
     rwa [htk] at this
 
-/-! ## every result of a search without `text()` conditions spells the position of its node -/
-
-/-- no token is a `text()` condition -/
-def NoText (toks : List Str) : Prop := ∀ tok ∈ toks, ∀ eq v, classify tok ≠ .text eq v
+/-! ## every result of a search spells the position of its node -/
 
 /-- every pair of the mapping: the key is the text of groups that spell a walk from the root to
 the value -/
@@ -1154,7 +1160,7 @@ def FadRes (root : Val) (f : Found) : Prop :=
   ∀ kv ∈ f, ∃ gs, GrpsPlain gs ∧ kv.1 = keyOf (flOfG gs) ∧ stepsGet root (stepsOfG gs) = some kv.2
 
 def FadRecOk (root : Val) (rec : Val → List Str → FL → PS → Out) : Prop :=
-  ∀ node toks fl ps gs, FadInv root gs node fl ps → NoText toks →
+  ∀ node toks fl ps gs, FadInv root gs node fl ps →
     ∀ f, (rec node toks fl ps).res = .ok (some f) → FadRes root f
 
 theorem fad_mem_kvSet {k : Str} {v : Val} : ∀ {l : List (Str × Val)} {kv : Str × Val}, kv ∈ kvSet k v l →
@@ -1276,14 +1282,11 @@ theorem fad_classify_name {tok n : Str} (h : classify tok = .name n) : n = tok :
     · simp only [classify, h1, if_false, h2] at h
       cases h; rfl
 
-theorem fad_noText_cons {tok : Str} {rest : List Str} (h : NoText (tok :: rest)) : NoText rest :=
-  fun t ht => h t (by simp [ht])
-
 theorem fad_step_ok {root : Val} (hroot : ∃ c kvs, root = .dict c kvs) (hko : KeysOkV root)
     {rec : Val → List Str → FL → PS → Out} (hr : FadRecOk root rec) (hps : PsInv rec) (hdl : FlDL rec)
     (hfd : ∀ c kvs t f p, (rec (.dict c kvs) t f p).fl = f) (re : Bool) :
     FadRecOk root (step rec re) := by
-  intro node toks fl ps gs hinv hnt f h
+  intro node toks fl ps gs hinv f h
   have hfl := hinv.fl_eq
   unfold step at h
   split at h
@@ -1294,7 +1297,6 @@ theorem fad_step_ok {root : Val} (hroot : ∃ c kvs, root = .dict c kvs) (hko : 
     subst hkv
     exact ⟨gs, hinv.plain, by rw [hfl], hinv.at_⟩
   · rename_i tok rest
-    have hnt' : NoText rest := fad_noText_cons hnt
     split at h
     · -- '..'
       unfold stepUp at h
@@ -1309,10 +1311,17 @@ theorem fad_step_ok {root : Val} (hroot : ∃ c kvs, root = .dict c kvs) (hko : 
             subst hg
             rw [hfl] at hne
             exact hne rfl
-          exact hr _ _ _ _ _ (hinv.up hgs hl) hnt' f h
+          exact hr _ _ _ _ _ (hinv.up hgs hl) f h
     · cases h
-    · rename_i eq v hcl
-      exact absurd hcl (hnt tok (by simp) eq v)
+    · -- text(): the condition only filters
+      unfold stepText at h
+      split at h
+      · split at h
+        · cases h
+        · split at h
+          · cases h
+          · exact hr _ _ _ _ _ hinv.register f h
+      · cases h
     · -- index
       rename_i i _
       unfold stepIdx at h
@@ -1331,7 +1340,7 @@ theorem fad_step_ok {root : Val} (hroot : ∃ c kvs, root = .dict c kvs) (hko : 
               have e := fad_setLast_addIdx hgs fl (by rw [hfl]) i
               rw [← hfl] at e
               rw [e] at h
-              exact hr _ _ _ _ _ (hinv.idx hroot hn hx) hnt' f h
+              exact hr _ _ _ _ _ (hinv.idx hroot hn hx) f h
             · cases re <;> simp [raiseOr] at h
       · split at h <;> cases re <;> simp [raiseOr] at h
       · cases h
@@ -1354,7 +1363,7 @@ theorem fad_step_ok {root : Val} (hroot : ∃ c kvs, root = .dict c kvs) (hko : 
           rw [← this, Nat.zero_add]
           rfl
         rw [e] at hres
-        exact hr _ _ _ _ _ (hinv.idx hroot (normIdx_nat hjl) hj) hnt' f' hres
+        exact hr _ _ _ _ _ (hinv.idx hroot (normIdx_nat hjl) hj) f' hres
       · cases re <;> simp [raiseOr] at h
       · cases h
     · -- name
@@ -1364,14 +1373,7 @@ theorem fad_step_ok {root : Val} (hroot : ∃ c kvs, root = .dict c kvs) (hko : 
       unfold stepName at h
       split at h
       · -- on a list: re-enter with "[*]" prepended
-        refine hr _ _ _ _ _ hinv ?_ f h
-        intro t ht eq v
-        simp only [List.mem_cons] at ht
-        rcases ht with rfl | rfl | ht
-        · have : classify ['[', '*', ']'] = .star := by decide
-          rw [this]; intro hh; cases hh
-        · rw [hcl]; intro hh; cases hh
-        · exact hnt' t ht eq v
+        exact hr _ _ _ _ _ hinv f h
       · rename_i c kvs
         have hkn : KeysOkK kvs := by
           have := fad_keysOk_stepsGet _ hko hinv.at_
@@ -1387,24 +1389,24 @@ theorem fad_step_ok {root : Val} (hroot : ∃ c kvs, root = .dict c kvs) (hko : 
               simp only at h
               rw [hfd, hps] at h
               have h1 : FadRes root (upd [] f1) :=
-                (FadRes.nil root).upd (fun f' hf' => hr _ _ _ _ _ hinv hnt' f' (by rw [hres, hf']))
+                (FadRes.nil root).upd (fun f' hf' => hr _ _ _ _ _ hinv f' (by rw [hres, hf']))
               refine fad_keysLoop_ok _ kvs _ h1 ?_ f h
               intro kc hkc f' hf'
               have hl := fad_keysOk_mem_lookup hkn (show (kc.1, kc.2) ∈ kvs from hkc)
-              exact hr _ _ _ _ _ (hinv.key (fad_keysOk_lookup hkn hl).1 hl) hnt f' hf'
+              exact hr _ _ _ _ _ (hinv.key (fad_keysOk_lookup hkn hl).1 hl) f' hf'
           · split at h
             · rename_i x hl
-              exact hr _ _ _ _ _ (hinv.key (fad_keysOk_lookup hkn hl).1 hl) hnt' f h
+              exact hr _ _ _ _ _ (hinv.key (fad_keysOk_lookup hkn hl).1 hl) f h
             · cases h
       · cases h
 
 /-- **every key spells its value's position**, for every fuel, path list and stack satisfying the
-invariant, and every expression without `text()` conditions -/
+invariant, and every expression -/
 theorem fad_fa_ok {root : Val} (hroot : ∃ c kvs, root = .dict c kvs) (hko : KeysOkV root) (re : Bool) :
     ∀ fuel, FadRecOk root (fa re fuel) := by
   intro fuel
   induction fuel with
-  | zero => intro node toks fl ps gs _ _ f h; cases h
+  | zero => intro node toks fl ps gs _ f h; cases h
   | succ k ih =>
     exact fad_step_ok hroot hko ih (fun n t f p => fa_ps re k n t f p) (fa_dl re k)
       (fun c kvs t f p => fad_fa_fl_dict re k c kvs t f p) re
@@ -1460,11 +1462,11 @@ theorem fad_descendant (re : Bool) {name : Str} (hn : PlainKey name) (c : Cls) (
     (fad_keys_nodup _ ((fad_desc_distinct name).1 _ hko).1 (fad_desc_plain hko))
   simpa [fadMapR, flPath] using this
 
-/-- **every key of a result without `text()` conditions spells the position of its value** -/
+/-- **every key of a result spells the position of its value** -/
 theorem fad_findall_spells (c : Cls) (kvs : List (Str × Val)) (hko : KeysOkV (.dict c kvs)) (e : Str)
-    (hnt : NoText (tokens e)) (fuel : Nat) (f : Found)
+    (fuel : Nat) (f : Found)
     (h : (findallTop fuel fresh (.dict c kvs) e).res = .ok (some f)) : FadRes (.dict c kvs) f :=
-  fad_fa_ok ⟨c, kvs, rfl⟩ hko true fuel _ _ _ _ [] (FadInv.start _) hnt f h
+  fad_fa_ok ⟨c, kvs, rfl⟩ hko true fuel _ _ _ _ [] (FadInv.start _) f h
 
 /-- item access on `'//'` returns the root -/
 theorem fad_getItem_root (fuel : Nat) (c : Cls) (kvs : List (Str × Val)) :
